@@ -221,7 +221,14 @@ def end_to_end_c18(tier, seed, res, work, stats):
         if ml or '\n' in ' '.join(t for t in toks if t.startswith('"')):
             continue
         name = 'r%02d.cql' % len(rules)
-        open(os.path.join(rdir, name), 'wb').write(text)
+        if len(rules) % 3 == 0:
+            open(os.path.join(rdir, name), 'wb').write(text)
+        else:
+            # a shared rule LINKED into the ruleset (relative and absolute links in turn)
+            os.makedirs(work + '/e2e/shared', exist_ok=True)
+            open('%s/e2e/shared/%s' % (work, name), 'wb').write(text)
+            os.symlink('../shared/' + name if len(rules) % 3 == 1 else '%s/e2e/shared/%s' % (work, name), os.path.join(rdir, name))
+            stats['e2e_linked_rule_files'] += 1
         rules.append((name, text, ' '.join(toks)))
     def locs(payload):
         try:
@@ -317,6 +324,14 @@ def check_c17(tier, seed, res, work):
             rules.append((name, text))
         rules.append(('notes.txt', b'not a rule'))
         qrun.write_project(rdir, rules)
+        # some rules are shared ones LINKED into the ruleset
+        for li, (n_, t_) in enumerate(rules):
+            if n_.endswith('.cql') and li % 3 == 1:
+                tgt = '%s/shared%d/%s' % (work, trial, os.path.basename(n_))
+                os.makedirs(os.path.dirname(tgt), exist_ok=True)
+                os.replace(os.path.join(rdir, n_), tgt)
+                os.symlink(tgt, os.path.join(rdir, n_))
+                stats['linked_rule_files'] += 1
         order = sorted([n for n, _ in rules if n.endswith('.cql')], key=lambda n: walk_key(n))
         texts = dict(rules)
         fmt = 'json' if trial % 2 == 0 else 'sarif'
